@@ -238,11 +238,26 @@ def run_grad(case):
     half = not (nt == "additive" or case["adjoint_method"] == "milstein")
     # order-0.5 adjoint solvers: per-level errors are noisy realisations of a sqrt(dt) law (observed final/first ratios
     # 0.10-0.26 over six levels, but up to 0.51 over five), so their ladder gets one more level
-    errs, _, dts, gn = _ladder(fam, case["method"], case["adjoint_method"], y0v, tsl, w, rng.randrange(1, 10 ** 9), levy,
-                               true_grad, range(4, 10) if half else range(4, 9), per_path)
+    entropy = rng.randrange(1, 10 ** 9)
+    levels = list(range(4, 10) if half else range(4, 9))
+    errs, _, dts, gn = _ladder(fam, case["method"], case["adjoint_method"], y0v, tsl, w, entropy, levy,
+                               true_grad, levels, per_path)
     ctx = (f"sde_type={st} noise={nt} family={case['family']} method={case['method']} "
            f"adjoint_method={case['adjoint_method']} loss_on={subset} rms|grad|={gn:.3g}")
-    sl = _judge(errs, dts, half, ctx, viol, f"adjoint_gradient_not_converging:{st}:{nt}:{case['adjoint_method']}")
+    mech = f"adjoint_gradient_not_converging:{st}:{nt}:{case['adjoint_method']}"
+    trial = []
+    sl = _judge(errs, dts, half, ctx, trial, mech)
+    if trial:
+        # The property is a limit statement and per-level errors are noisy (heavy-tailed per-path gradients; observed
+        # pre-asymptotic plateaus such as .115 .125 .069 .055 .057 .058 followed by .041 .025 .013). A failed verdict is
+        # therefore re-taken on a ladder extended by three finer levels on the same path: a broken adjoint stays flat,
+        # a converging one resumes.
+        more = [levels[-1] + 1, levels[-1] + 2, levels[-1] + 3]
+        e2, _, d2, _ = _ladder(fam, case["method"], case["adjoint_method"], y0v, tsl, w, entropy, levy, true_grad, more,
+                               per_path)
+        errs, dts = errs + e2, dts + d2
+        cnt["ladders_extended_after_failed_verdict"] = 1
+        sl = _judge(errs, dts, half, ctx + " [ladder extended by 3 levels]", viol, mech)
     cnt["gradient_ladders"] = 1
     cnt["subset_losses"] = int(subset != "all")
     cnt[f"pairs_{st}"] = 1
